@@ -55,6 +55,54 @@ func H_C10_AccessInvalidate() {
 	vrt.Assert(vals[0] == 1 && vals[1] == 2, "access-callback-values")
 }
 
+// H_C10_AccessSameValue (variant of H_C10_AccessInvalidate in which the resolver produces an
+// EQUAL value again, so "the value looks the same" cannot stand in for "nothing changed"): the Access callback's first invocation invalidates the value it was
+// given (it calls the resolver's released() callback), waits until the invalidation has been
+// delivered (the resolver is called again) and returns an error. Access must
+// not return that invocation's result: it waits for the replacement value, invokes the
+// callback again with it and returns that invocation's result. Every value passed to the
+// callback is the value current when Access looked.
+func H_C10_AccessSameValue() {
+	errStale := errors.New("result of the invalidated invocation")
+	var n int
+	var lastRel func()
+	second := make(chan struct{})
+	resolver := func(ctx context.Context, released func()) (int, func(), error) {
+		var v int
+		vrt.Atomic(func() {
+			n++
+			v = n
+			lastRel = released
+		})
+		if v == 2 {
+			close(second)
+		}
+		return 7, nil, nil
+	}
+	rc := refcount.NewRefCount[int](context.Background(), false, nil, nil, resolver)
+	calls := 0
+	var vals [4]int
+	err := rc.Access(context.Background(), func(ctx context.Context, val int) error {
+		calls++
+		if calls <= 4 {
+			vals[calls-1] = val
+		}
+		if calls == 1 {
+			var f func()
+			vrt.Atomic(func() { f = lastRel })
+			f()
+			// released() may be processed asynchronously: the invalidation has certainly been
+			// delivered once the resolver has been called again
+			<-second
+			return errStale
+		}
+		return nil
+	})
+	vrt.Assert(err == nil, "access-returned-result-of-invalidated-invocation")
+	vrt.Assert(calls == 2, "access-callback-not-reinvoked-once")
+	vrt.Assert(vals[0] == 7 && vals[1] == 7, "access-callback-values")
+}
+
 // H_C10_AccessPrompt: as H_C10_AccessInvalidate, but the replacement value is not resolved
 // before the first invocation has seen its context cancelled: the invalidation alone (not the
 // arrival of a replacement) must cancel the callback's context, otherwise the callback, the
